@@ -19,4 +19,5 @@ m=json.load(open(sys.argv[1])); m['caught_by']=[x for x in sys.argv[2].split() i
 PY
 done
 grep -c "FIRED: none" $log | sed 's/^/seeds not reported by any check: /'
+awk -F'|' 'NR>2{id=$3; gsub(/ /,"",id); if (index($4,id)==0) n++} END{print "seeds not reported by the check of their own property: " n+0}' $out
 rm -f $log
